@@ -131,3 +131,25 @@ package eval
 //@   ensures [knight] n2 == mirrorBB(n1)
 //@   ensures [tables] all(d, 0, 1, all(k, 0, 5, pw2.attacks[d][k] == mirrorBB(pw1.attacks[d^1][k])))
 //@
+//@ # ---- C17 (colour symmetry), scoring helpers: piece-square, tempo and endgame-score steps give the
+//@ # ---- mirror image's colour-exchanged accumulators the same increments / the same final score
+//@ scenario psqtMirror(sp1 *scorePair[chess.Score], sp2 *scorePair[chess.Score], cf *CoeffSet[chess.Score], c Color, p Piece, sq Square)
+//@   props C17
+//@   requires c <= 1 && 0 <= sq && sq < 64 && 1 <= p && p <= 6
+//@   requires all(d, 0, 1, sp2.mg[d] == sp1.mg[d^1] && sp2.eg[d] == sp1.eg[d^1])
+//@   do inline sp1.addPSqT(c, p, sq, cf)
+//@   do inline sp2.addPSqT(c ^ 1, p, sq ^ 56, cf)
+//@   ensures [acc] all(d, 0, 1, sp2.mg[d] == sp1.mg[d^1] && sp2.eg[d] == sp1.eg[d^1])
+//@
+//@ scenario tempoEndgameMirror(b1 *Board, b2 *Board, sp1 *scorePair[chess.Score], sp2 *scorePair[chess.Score], cf *CoeffSet[chess.Score])
+//@   props C17
+//@   requires mirrored(b1, b2)
+//@   requires sp2.phase == sp1.phase
+//@   requires all(d, 0, 1, sp2.mg[d] == sp1.mg[d^1] && sp2.eg[d] == sp1.eg[d^1])
+//@   do inline sp1.addTempo(b1, cf)
+//@   do inline sp2.addTempo(b2, cf)
+//@   do e1 := inline sp1.endgameScore(b1)
+//@   do e2 := inline sp2.endgameScore(b2)
+//@   ensures [acc]     all(d, 0, 1, sp2.mg[d] == sp1.mg[d^1] && sp2.eg[d] == sp1.eg[d^1])
+//@   ensures [endgame] e2 == e1
+//@
